@@ -226,6 +226,7 @@ func runC01(r *Run) {
 			o     int
 			set   int
 			doSet bool
+			dead  bool // the caller's context is already cancelled
 		}
 		var rds []rd
 		for k := 0; k < rounds; k++ {
@@ -234,6 +235,7 @@ func runC01(r *Run) {
 				x.doSet = true
 				x.set = []int{1, 2, 3, 0, -2, 5}[t.Intn(6, "setv")]
 			}
+			x.dead = t.Chance(10, "abandoned-context")
 			rds = append(rds, x)
 		}
 		tasks = append(tasks, s.Go("caller", func(tk *Task) {
@@ -249,7 +251,11 @@ func runC01(r *Run) {
 				var tok core.StrategyToken
 				var ok bool
 				if dl != nil {
-					l, ok = dl.Acquire(tk.Ctx)
+					actx := tk.Ctx
+					if x.dead {
+						actx = cancelledCtx // the gate does not look at the caller's context: an abandoned request is admitted like any other
+					}
+					l, ok = dl.Acquire(actx)
 					if (l != nil) != ok {
 						s.Fail("listener-ok-mismatch", "default", "Acquire returned listener=%v ok=%v", l != nil, ok)
 					}
